@@ -66,7 +66,14 @@ Pool == <<
   (* 19 *) <<UnitD(<<c_t>>, 7, <<<<c_l, c_e, c_n>>>>)>>,
   (* 20 *) <<SubstD(<<c_z, c_e, c_r, c_o>>, <<Prop(<<c_p, 51>>, <<c_p, 51>>, 0, <<n_m>>, <<c_c, 51>>, 1, <<>>)>>)>>,
   (* 21 *) <<UnitD(<<c_a>>, 2, <<n_meter>>)>>,
-  (* 22 *) <<UnitD(<<c_b>>, 1, <<<<c_b>>>>)>>
+  (* 22 *) <<UnitD(<<c_b>>, 1, <<<<c_b>>>>)>>,
+  \* 23-27: a reference that reads two ways as prefix + unit (`dam` = d + am or da + m): the reading the loader
+  \* chooses must not depend on the order of the definitions
+  (* 23 *) <<PrefD(<<c_d>>, FALSE, 7, <<>>)>>,
+  (* 24 *) <<PrefD(<<c_d, c_a>>, FALSE, 10, <<>>)>>,
+  (* 25 *) <<UnitD(<<c_a, c_m>>, 5, <<n_s>>)>>,
+  (* 26 *) <<UnitD(<<c_r>>, 3, <<<<c_d, c_a, c_m>>>>)>>,
+  (* 27 *) <<UnitD(<<c_u>>, 2, <<<<c_r>>, <<c_d, c_a, c_m>>>>)>>
 >>
 
 RECURSIVE SubsetsUpTo(_, _)
